@@ -321,3 +321,143 @@ Proof.
   - intros k k' m Hk. destruct (bytes_eq (k :: m) (k' :: m)) eqn:E; [|reflexivity].
     apply bytes_eqb in E. inversion E. contradiction.
 Qed.
+
+(* ================================================================== wave 2: Extension composition, exact-match lookups *)
+Lemma len_app : forall (a b : list N), len (a ++ b) = len a + len b.
+Proof. intros. unfold len. rewrite app_length. lia. Qed.
+Lemma len_cons : forall (x : N) (a : list N), len (x :: a) = 1 + len a.
+Proof. intros. unfold len. cbn [length]. lia. Qed.
+
+(* the dry-run size of a TLV is the length of what is emitted *)
+Lemma tlv_len : forall t c, len (tlv t c) = tlv_size (len c).
+Proof. intros. unfold tlv, tlv_size. rewrite len_cons, len_app. lia. Qed.
+
+(* x509_ext_to_der_ex: size pass = length of the emitted content, for every content length *)
+Theorem ext_ex_size_ok : forall oidtlv critical d,
+  ext_ex_size oidtlv critical (len d) = len (oidtlv ++ bool_tlv critical ++ tlv 4 (tlv 48 d)).
+Proof.
+  intros. unfold ext_ex_size. rewrite !len_app. rewrite (tlv_len 4 (tlv 48 d)), (tlv_len 48 d).
+  unfold tlv_size at 3. lia.
+Qed.
+
+(* ... and the emit pass writes exactly the nested TLV *)
+Theorem ext_ex_emit_eq_spec : forall oidtlv critical d,
+  ext_ex_emit oidtlv critical d = ext_spec oidtlv critical (tlv 48 d).
+Proof.
+  intros. unfold ext_ex_emit, ext_spec. rewrite ext_ex_size_ok.
+  assert (tlv 4 (tlv 48 d) = 4 :: len_enc (tlv_size (len d)) ++ tlv 48 d) as E
+    by (unfold tlv at 1; rewrite tlv_len; reflexivity).
+  cbv zeta. rewrite <- E. reflexivity.
+Qed.
+
+Theorem ext_size_ok : forall oidtlv critical val,
+  ext_size oidtlv critical (len val) = len (oidtlv ++ bool_tlv critical ++ tlv 4 val).
+Proof. intros. unfold ext_size. rewrite !len_app, tlv_len. lia. Qed.
+
+Theorem ext_emit_eq_spec : forall oidtlv critical val,
+  ext_emit oidtlv critical val = ext_spec oidtlv critical val.
+Proof. intros. unfold ext_emit, ext_spec. rewrite ext_size_ok. reflexivity. Qed.
+
+Definition bool_value (critical : Z) : value :=
+  if (critical <? 0)%Z then None else Some (1, [if (critical =? 0)%Z then 0 else 255]).
+
+(* what x509_ext_from_der consumes and hands back is what was composed *)
+Theorem ext_roundtrip : forall oidc critical val rest,
+  len oidc < 2147483648 -> len val < 2147483648 ->
+  len (tlv 6 oidc ++ bool_tlv critical ++ tlv 4 val) < 2147483648 ->
+  ext_from_der (ext_spec (tlv 6 oidc) critical val ++ rest) =
+    Some ([Some (6, oidc); bool_value critical; Some (4, val)], rest).
+Proof.
+  intros oidc critical val rest Ho Hv Hc. unfold ext_from_der, ext_spec.
+  rewrite tlv_round by exact Hc. rewrite N.eqb_refl.
+  assert (tlv 6 oidc ++ bool_tlv critical ++ tlv 4 val =
+          enc_items [Some (6, oidc); bool_value critical; Some (4, val)] ++ []) as E.
+  { unfold enc_items, bool_value, bool_tlv. cbn [map concat enc_value].
+    destruct (critical <? 0)%Z; cbn [enc_value app]; rewrite ?app_nil_r; [reflexivity|].
+    destruct (critical =? 0)%Z; reflexivity. }
+  rewrite E, dec_items_round; [reflexivity|].
+  unfold ext_layout, bool_value. cbn [wf]. destruct (critical <? 0)%Z;
+    repeat split; try assumption; try reflexivity; destruct (critical =? 0)%Z; cbn; lia.
+Qed.
+
+(* both builders, composed and parsed back: all content lengths up to the C limit *)
+Corollary ext_ex_issue_parse : forall oidc critical d rest,
+  len oidc < 2147483648 -> len (tlv 48 d) < 2147483648 ->
+  len (tlv 6 oidc ++ bool_tlv critical ++ tlv 4 (tlv 48 d)) < 2147483648 ->
+  ext_from_der (ext_ex_emit (tlv 6 oidc) critical d ++ rest) =
+    Some ([Some (6, oidc); bool_value critical; Some (4, tlv 48 d)], rest).
+Proof. intros. rewrite ext_ex_emit_eq_spec. apply ext_roundtrip; assumption. Qed.
+
+(* the DER length-of-length boundaries are covered by the statement above; spelled out *)
+Example ext_ex_boundaries :
+  forallb (fun n : N => let d := repeat 7 (N.to_nat n) in
+     match ext_from_der (ext_ex_emit (tlv 6 [85; 29; 17]) (-1) d) with
+     | Some ([_; None; Some (t, v)], []) => (t =? 4) && octets_eqb v (tlv 48 d)
+     | _ => false end) [0; 1; 119; 120; 121; 122; 123; 124; 125; 126; 127; 128; 129; 130; 250; 251; 252; 253; 254; 255; 256; 257; 65529; 65535; 65536] = true.
+Proof. vm_compute. reflexivity. Qed.
+
+(* ------------------------------------------------------------------ exact-match lookups *)
+Lemma octets_eqb_iff : forall a b, octets_eqb a b = true <-> a = b.
+Proof.
+  induction a as [|x a IH]; intros [|y b]; cbn; split; intros H; try reflexivity; try discriminate.
+  - apply andb_true_iff in H. destruct H as [H1 H2]. apply N.eqb_eq in H1. apply IH in H2. subst. reflexivity.
+  - inversion H; subst. rewrite N.eqb_refl. apply IH. reflexivity.
+Qed.
+
+Lemma key_match_iff : forall i s issuer serial,
+  octets_eqb i issuer && octets_eqb s serial = true <-> (i = issuer /\ s = serial).
+Proof. intros. rewrite andb_true_iff, !octets_eqb_iff. tauto. Qed.
+
+Theorem find_by_issuer_serial_hit : forall A (l : list (keyed A)) issuer serial a,
+  find_by_issuer_serial l issuer serial = FHit a <->
+  exists pre post, l = pre ++ Some (issuer, serial, a) :: post /\
+    Forall (fun e => exists i s x, e = Some (i, s, x) /\ ~ (i = issuer /\ s = serial)) pre.
+Proof.
+  intros A l issuer serial a. split.
+  - induction l as [|e l IH]; cbn; intros H; [discriminate|].
+    destruct e as [[[i s] x]|]; [|discriminate].
+    destruct (octets_eqb i issuer && octets_eqb s serial) eqn:E.
+    + apply key_match_iff in E. destruct E; subst. inversion H; subst. exists [], l. split; [reflexivity|constructor].
+    + apply IH in H. destruct H as (pre & post & -> & Hpre). exists (Some (i, s, x) :: pre), post.
+      split; [reflexivity|]. constructor; [|exact Hpre]. exists i, s, x. split; [reflexivity|].
+      intro Hm. apply key_match_iff in Hm. rewrite Hm in E. discriminate.
+  - intros (pre & post & -> & Hpre). induction pre as [|e pre IH]; cbn.
+    + assert (octets_eqb issuer issuer && octets_eqb serial serial = true) as E by (apply key_match_iff; auto).
+      rewrite E. reflexivity.
+    + inversion Hpre as [|? ? (i & s & x & -> & Hne) Hr]; subst.
+      destruct (octets_eqb i issuer && octets_eqb s serial) eqn:E; [apply key_match_iff in E; contradiction|].
+      apply IH; exact Hr.
+Qed.
+
+Theorem find_by_issuer_serial_none : forall A (l : list (keyed A)) issuer serial,
+  find_by_issuer_serial l issuer serial = FNone <->
+  Forall (fun e => exists i s x, e = Some (i, s, x) /\ ~ (i = issuer /\ s = serial)) l.
+Proof.
+  intros A l issuer serial. induction l as [|e l IH]; cbn.
+  - split; [constructor|reflexivity].
+  - destruct e as [[[i s] x]|].
+    + destruct (octets_eqb i issuer && octets_eqb s serial) eqn:E.
+      * apply key_match_iff in E. split; [discriminate|]. intros H. inversion H as [|? ? (i' & s' & x' & He & Hne) _]; subst.
+        inversion He; subst. contradiction.
+      * rewrite IH. split.
+        -- intros H. constructor; [|exact H]. exists i, s, x. split; [reflexivity|].
+           intro Hm. apply key_match_iff in Hm. rewrite Hm in E. discriminate.
+        -- intros H. inversion H; assumption.
+    + split; [discriminate|]. intros H. inversion H as [|? ? (i' & s' & x' & He & _) _]. discriminate.
+Qed.
+
+(* a serial that merely starts with (or extends) the wanted one is not a match *)
+Corollary prefix_serial_is_skipped : forall A (l : list (keyed A)) issuer serial extra x,
+  extra <> [] ->
+  find_by_issuer_serial (Some (issuer, serial ++ extra, x) :: l) issuer serial = find_by_issuer_serial l issuer serial /\
+  find_by_issuer_serial (Some (issuer, serial, x) :: l) issuer (serial ++ extra) = find_by_issuer_serial l issuer (serial ++ extra).
+Proof.
+  intros A l issuer serial extra x He. cbn.
+  assert (serial ++ extra <> serial) as Hne.
+  { intro H. apply He. rewrite <- (app_nil_r serial) in H at 2. apply app_inv_head in H. exact H. }
+  split.
+  - destruct (octets_eqb issuer issuer && octets_eqb (serial ++ extra) serial) eqn:E; [|reflexivity].
+    apply key_match_iff in E. destruct E; contradiction.
+  - destruct (octets_eqb issuer issuer && octets_eqb serial (serial ++ extra)) eqn:E; [|reflexivity].
+    apply key_match_iff in E. destruct E as [_ E]. symmetry in E. contradiction.
+Qed.
